@@ -209,7 +209,94 @@ class CheckOutputSpec(Spec):
                 'case': {'wants': pairs_w[:3], 'gots': len(gs)}}
 
 
+class ManyMarkersSpec(Spec):
+    """The token bound above stops at 5-6 markers.  This family is deep in the *number of markers* instead:
+    want = p0 ... p1 ... p2 ... pn with n markers, inner pieces over {a, b}, end pieces over {'', a, b}."""
+    prop = 'C06'
+    batch = 1
+    title = 'wants with many markers (n <= 14) vs the brute-force definition'
+
+    def __init__(self, name, nmax, nfull):
+        self.name = name
+        self.nmax = nmax
+        self.nfull = nfull
+        self.max_len = nmax
+        self.rule = ('wants p0...p1... ...pn with n <= %d markers: every choice of inner pieces over {a,b} for n <= %d, '
+                     'the uniform (all a) and alternating (a,b,a,..) inner pieces beyond; end pieces over {empty,a,b}; gots = '
+                     'all strings over {a,b} of <= min(n+2, 9) characters plus a^m and (ab)^m for m <= 16; through '
+                     '_ellipsis_match and check_output(+ELLIPSIS, other leniencies off); non-trivial = as for the main spec'
+                     % (nmax, nfull))
+
+    def histories(self, stats):
+        for n in range(1, self.nmax + 1):
+            for e0 in ('', 'a', 'b'):
+                yield ('n', n, e0)
+
+    def hist_cost(self, hist):
+        return 0
+
+    def wants_for(self, n, e0):
+        inner = n - 1
+        if n <= self.nfull:
+            inners = [list(t) for t in itertools.product('ab', repeat=inner)]
+        else:
+            inners = [['a'] * inner, ['ab'[i % 2] for i in range(inner)]]
+        for mid in inners:
+            for e1 in ('', 'a', 'b'):
+                yield '...'.join([e0] + mid + [e1])
+
+    def run_case(self, hist):
+        from xdoctest import checker, directive
+        em = checker._ellipsis_match
+        r = directive.RuntimeState()
+        for k in ('NORMALIZE_WHITESPACE', 'IGNORE_WHITESPACE', 'NORMALIZE_REPR'):
+            r[k] = False
+        r['DONT_ACCEPT_BLANKLINE'] = True
+        r['ELLIPSIS'] = True
+        if hist[0] == 'pair':
+            ws, gs = [hist[2]], [hist[1]]
+        else:
+            _, n, e0 = hist
+            ws = list(self.wants_for(n, e0))
+            gs = list(gots_ab(min(n + 2, 9)))
+            extra = ['a' * m for m in range(17)] + ['ab' * m for m in range(9)] + ['ab' * m + 'a' for m in range(9)]
+            gs += [g for g in extra if g not in set(gs)]
+        n_ev = nontriv = nmatch = 0
+        fails = []
+        for w in ws:
+            pieces = matchref.pieces(w)
+            lits = [p for p in pieces if p]
+            for g in gs:
+                n_ev += 2
+                b = brute_force(g, pieces)
+                nmatch += int(b)
+                for label, fn in (('_ellipsis_match', lambda: em(g, w)), ('check_output', lambda: checker.check_output(g, w, r))):
+                    try:
+                        a = bool(fn())
+                    except Exception as ex:
+                        a = 'raise:' + type(ex).__name__
+                    exp = b or (label == 'check_output' and g == w)
+                    if a is not exp and len(fails) < 4:
+                        kind = 'false-match' if a is True else ('false-mismatch' if a is False else a)
+                        fails.append((('pair', g, w), [{'sig': 'ellipsis:many-markers:' + kind,
+                                                         'msg': '%s(%r, %r) = %s, definition says %s (%d markers)' % (
+                                                             label, g, w, a, exp, len(pieces) - 1)}], {'got': g, 'want': w}))
+                if (b and g != w) or (not b and all(p in g for p in lits)):
+                    nontriv += 1
+        return {'n': n_ev, 'nontrivial': nontriv, 'fails': fails,
+                'outcomes': {'match': nmatch, 'mismatch': n_ev // 2 - nmatch},
+                'case': {'wants': ws[:2], 'gots': len(gs)}}
+
+
+def gots_ab(n):
+    for k in range(n + 1):
+        for t in itertools.product('ab', repeat=k):
+            yield ''.join(t)
+
+
 def specs(tier):
     if tier == 'thorough':
-        return [EllipsisSpec('match<=6x6', 6, 6), CheckOutputSpec('check_output<=5x5', 5, 5)]
-    return [EllipsisSpec('match<=5x5', 5, 5), CheckOutputSpec('check_output<=4x4', 4, 4)]
+        return [EllipsisSpec('match<=6x6', 6, 6), CheckOutputSpec('check_output<=5x5', 5, 5),
+                ManyMarkersSpec('markers<=16', 16, 9)]
+    return [EllipsisSpec('match<=5x5', 5, 5), CheckOutputSpec('check_output<=4x4', 4, 4),
+            ManyMarkersSpec('markers<=14', 14, 7)]
